@@ -120,10 +120,11 @@ type c17Case struct {
 	dead     string // scan only: how keys are removed: del | unlink | expire | mixed (unlinked and expired keys linger in the table)
 	prechurn int    // add+remove cycles of temporary names before the iteration (ages the table's removal bookkeeping)
 	spread   bool   // mutation phases spread over the whole iteration instead of the first calls
+	compact  bool   // names with pairwise different low hash bits: the table stays about twice the element count, so it really halves when elements go
 }
 
 func (c c17Case) String() string {
-	return fmt.Sprintf("%s size=%d COUNT=%d script=%s match=%q type=%q adversarial=%d removal=%s prechurn=%d spread=%v", c.kind, c.size, c.count, c.script, c.match, c.typ, c.adverse, c.dead, c.prechurn, c.spread)
+	return fmt.Sprintf("%s size=%d COUNT=%d script=%s match=%q type=%q adversarial=%d removal=%s prechurn=%d spread=%v compact=%v", c.kind, c.size, c.count, c.script, c.match, c.typ, c.adverse, c.dead, c.prechurn, c.spread, c.compact)
 }
 
 func c17Run(r *verdict.Run, e *emu, cs c17Case, rng *rand.Rand) {
@@ -142,6 +143,15 @@ func c17Run(r *verdict.Run, e *emu, cs c17Case, rng *rand.Rand) {
 	mut.Timeout = 60 * time.Second
 	const coll = "coll"
 	used24 := map[uint64]bool{}
+	usedLow := map[uint64]bool{}
+	compactMask := uint64(1)
+	if cs.compact {
+		total := 8*cs.size + 80 // upper bound of the names of one case
+		for compactMask < uint64(2*total) {
+			compactMask <<= 1
+		}
+		compactMask--
+	}
 	names := func(prefix string, n int) []string {
 		if cs.adverse > 0 && n >= 2 {
 			return adversarialNames(rng, prefix, n, cs.adverse)
@@ -150,6 +160,13 @@ func c17Run(r *verdict.Run, e *emu, cs c17Case, rng *rand.Rand) {
 		for i := range out {
 			for {
 				out[i] = fmt.Sprintf("%s%d-%x", prefix, i, rng.Int31())
+				if cs.compact {
+					if low := sutHash(out[i]) & compactMask; usedLow[low] {
+						continue
+					} else {
+						usedLow[low] = true
+					}
+				}
 				// two names of one collection that share 24+ low hash bits would make the emulator's collision-free table
 				// grow to hundreds of MiB or fail (the known dictionary finding, C04): not this check's subject
 				if low := sutHash(out[i]) & (1<<24 - 1); !used24[low] {
@@ -161,7 +178,11 @@ func c17Run(r *verdict.Run, e *emu, cs c17Case, rng *rand.Rand) {
 		return out
 	}
 	stable := names("st:", cs.size)
-	volatilePre := names("vp:", cs.size/2+2) // present at the start, deleted during the iteration
+	npre := cs.size/2 + 2
+	if cs.script == "collapse" {
+		npre = 6*cs.size + 40 // most of the collection goes away in one step in the middle of the iteration: the table halves, probably twice
+	}
+	volatilePre := names("vp:", npre) // present at the start, deleted during the iteration
 	nNew := cs.size*3 + 8
 	if cs.size >= 400 && os.Getenv("C17_UNCAPPED") == "" {
 		nNew = cs.size/2 + 8 // the emulator's table is quadratic in the element count
@@ -327,7 +348,24 @@ func c17Run(r *verdict.Run, e *emu, cs c17Case, rng *rand.Rand) {
 		return p
 	}
 	nothingStable := false
+	planStart := 0 // the first mutation phase is applied after this many calls
 	switch cs.script {
+	case "collapse":
+		var p phase
+		for _, el := range volatilePre {
+			p = append(p, delCmd(el))
+		}
+		plan = []phase{p}
+		planStart = (len(stable) + len(volatilePre)) / cs.count / 2
+		// ... and from then on a temporary element is added and removed 150 times between all calls: the removals add up
+		// until the (now sparse) table is allowed to halve, again and again, while the iteration goes on
+		var churn phase
+		for i := 0; i < 150; i++ {
+			churn = append(churn, addCmd("tmp:c", "cv"), delCmd("tmp:c"))
+		}
+		for i := 0; i < 60; i++ {
+			plan = append(plan, churn)
+		}
 	case "delete-all", "flush":
 		// the collection becomes completely empty in the middle of the iteration: nothing is stable, the iteration
 		// must still end
@@ -377,7 +415,7 @@ func c17Run(r *verdict.Run, e *emu, cs c17Case, rng *rand.Rand) {
 	if cs.spread && len(plan) > 0 {
 		stride = 1 + (len(stable)+len(volatilePre))/cs.count/(len(plan)+1)
 	}
-	bound += len(plan) * stride
+	bound += len(plan)*stride + planStart
 	for {
 		args := []string{}
 		switch cs.kind {
@@ -427,7 +465,7 @@ func c17Run(r *verdict.Run, e *emu, cs c17Case, rng *rand.Rand) {
 			break
 		}
 		if planIdx < len(plan) {
-			if (calls-1)%stride == 0 {
+			if calls-1 >= planStart && (calls-1)%stride == 0 {
 				if !batch(plan[planIdx]) {
 					return
 				}
@@ -450,7 +488,7 @@ func c17Run(r *verdict.Run, e *emu, cs c17Case, rng *rand.Rand) {
 	r.Count("scan_calls", int64(calls))
 	// oracle
 	rep := map[string]any{"case": cs.String(), "calls": calls, "cursors": cursors,
-		"case_fields": map[string]any{"kind": cs.kind, "size": cs.size, "count": cs.count, "script": cs.script, "match": cs.match, "type": cs.typ, "adverse": cs.adverse, "dead": cs.dead, "prechurn": cs.prechurn, "spread": cs.spread},
+		"case_fields": map[string]any{"kind": cs.kind, "size": cs.size, "count": cs.count, "script": cs.script, "match": cs.match, "type": cs.typ, "adverse": cs.adverse, "dead": cs.dead, "prechurn": cs.prechurn, "spread": cs.spread, "compact": cs.compact},
 		"names":       c17Names{stable, volatilePre, volatileNew, never}}
 	if len(cursors) > 400 {
 		rep["cursors"] = cursors[len(cursors)-400:]
@@ -549,7 +587,7 @@ func c17Run(r *verdict.Run, e *emu, cs c17Case, rng *rand.Rand) {
 }
 
 func checkC17(r *verdict.Run) {
-	r.Rule = "full iterations (cursor 0 -> ... -> 0, cursors fed back verbatim) of SCAN/HSCAN/SSCAN over collections of 0-3000 elements with COUNT in {1,2,7,10,100,10000}, with and without MATCH/TYPE (patterns with wildcards, with escapes only, plain literals; names that contain the metacharacters themselves), while the driver itself grows (several table doublings), shrinks (table halving), grows-shrinks-grows, churns or completely empties (key by key, or by FLUSHDB/FLUSHALL/DEL) the collection between calls (during the first calls or spread over the iteration); names random or chosen to share 10-16 low hash bits (long doubling chains); keys removed by DEL, UNLINK or a passed deadline (the latter two leave dead keys in the table, some already dead when the iteration starts), on fresh tables and on tables aged by add/remove cycles. " +
+	r.Rule = "full iterations (cursor 0 -> ... -> 0, cursors fed back verbatim) of SCAN/HSCAN/SSCAN over collections of 0-3000 elements with COUNT in {1,2,7,10,100,10000}, with and without MATCH/TYPE (patterns with wildcards, with escapes only, plain literals; names that contain the metacharacters themselves), while the driver itself grows (several table doublings), shrinks (table halving), grows-shrinks-grows, churns, loses six sevenths of its elements in the middle of the iteration, or is completely emptied (key by key, or by FLUSHDB/FLUSHALL/DEL) the collection between calls (during the first calls or spread over the iteration); names random, chosen to share 10-16 low hash bits (long doubling chains) or chosen with pairwise different low bits (compact tables that really halve when elements go); keys removed by DEL, UNLINK or a passed deadline (the latter two leave dead keys in the table, some already dead when the iteration starts), on fresh tables and on tables aged by add/remove cycles. " +
 		"oracle (set arithmetic, no model of the cursor): returned >= stable elements matching the filter, nothing never-present, already dead or non-matching returned, HSCAN values were really held, termination within 4*(elements)/COUNT+64 calls and no cursor repeated after mutations stop. distinct = (command, script, size, COUNT, filter, adversarial bits)"
 	sizes := []int{0, 1, 5, 17, 100}
 	counts := []int{1, 2, 7, 10, 100, 10000}
@@ -560,17 +598,20 @@ func checkC17(r *verdict.Run) {
 	rng0 := shardRng(r, 0)
 	for _, kind := range []string{"scan", "hscan", "sscan"} {
 		for _, size := range sizes {
-			for _, script := range []string{"none", "grow", "shrink", "grow-shrink-grow", "churn", "delete-all", "flush"} {
+			for _, script := range []string{"none", "grow", "shrink", "grow-shrink-grow", "churn", "delete-all", "flush", "collapse"} {
 				// quick: a seeded subset of COUNT values per (kind,size,script); thorough: all
 				cs := counts
 				if r.Tier != "thorough" {
 					cs = []int{counts[rng0.Intn(len(counts))], counts[rng0.Intn(len(counts))]}
+					if script == "collapse" {
+						cs = counts[:4] // where the iteration stands when the table halves depends on COUNT: all the small ones
+					}
 				}
 				for _, cnt := range cs {
 					if size >= 1000 && cnt < 7 {
 						continue
 					}
-					c := c17Case{kind: kind, size: size, count: cnt, script: script}
+					c := c17Case{kind: kind, size: size, count: cnt, script: script, compact: script == "collapse"}
 					switch rng0.Intn(6) {
 					case 5:
 						c.match = c17SpecialPatterns[rng0.Intn(len(c17SpecialPatterns))]
@@ -638,6 +679,7 @@ func checkC17(r *verdict.Run) {
 			}
 			c2.prechurn = []int{0, c.size/2 + 1, c.size + 3, 2*c.size + 9, 8, 16, 32, 64, rng0.Intn(4*c.size + 40)}[rng0.Intn(9)]
 			c2.spread = rng0.Intn(2) == 0
+			c2.compact = c2.compact || (c2.adverse == 0 && rng0.Intn(3) == 0)
 			if rng0.Intn(4) == 0 {
 				c2.match = c17SpecialPatterns[rng0.Intn(len(c17SpecialPatterns))]
 			}
@@ -663,6 +705,7 @@ func checkC17(r *verdict.Run) {
 				str := func(k string) string { v, _ := f[k].(string); return v }
 				one := c17Case{fixed: &doc.Replay.N, kind: str("kind"), size: num("size"), count: num("count"), script: str("script"), match: str("match"), typ: str("type"), adverse: num("adverse"), dead: str("dead"), prechurn: num("prechurn")}
 				one.spread, _ = f["spread"].(bool)
+				one.compact, _ = f["compact"].(bool)
 				cases = []c17Case{one, one}
 			}
 		}
